@@ -35,9 +35,9 @@ pub fn install_panic_hook_once() {
 }
 
 pub fn guarded<R>(f: impl FnOnce() -> R) -> Result<R, String> {
-    QUIET.with(|q| q.set(true));
+    let before = QUIET.with(|q| q.replace(true));
     let r = catch_unwind(AssertUnwindSafe(f));
-    QUIET.with(|q| q.set(false));
+    QUIET.with(|q| q.set(before));
     r.map_err(|e| {
         if let Some(s) = e.downcast_ref::<&str>() {
             s.to_string()
@@ -525,6 +525,11 @@ stage_fn!(stage_of64, Option<f64>, container_of64, abs_na::<Option<f64>>);
 stage_fn!(stage_oi32, Option<i32>, container_oi32, abs_na::<Option<i32>>);
 
 fn loosen<'a, T: 'a>(s: S<'a, T>, m: usize) -> S<'a, T> {
+    if m == 0 {
+        // honest iterator that knows nothing about its length: size hint (0, None)
+        let mut it = s.into_plain();
+        return S::Pl(Box::new(std::iter::from_fn(move || it.next())));
+    }
     let m = m.max(2);
     let mut i = 0usize;
     S::Pl(Box::new(s.into_plain().filter(move |_| {
@@ -726,6 +731,15 @@ pub struct ProbeOut {
 /// Replay `ops[..cut]`, read the hint, then count the rest by plain safe iteration.
 /// `Err` carries the panic message (or a HARNESS / DOCUMENTED-ERR marker).
 pub fn probe(p: &Pipe, cut: usize) -> Result<ProbeOut, String> {
+    probe_dir(p, cut, false)
+}
+
+/// like `probe`, but what is left is counted by `next_back()` (double-ended streams only)
+pub fn probe_back(p: &Pipe, cut: usize) -> Result<ProbeOut, String> {
+    probe_dir(p, cut, true)
+}
+
+fn probe_dir(p: &Pipe, cut: usize, from_back: bool) -> Result<ProbeOut, String> {
     let lens = resolve_lens(p, cut)?;
     trk_reset();
     SIM_PULLS.with(|c| c.set(0));
@@ -739,7 +753,7 @@ pub fn probe(p: &Pipe, cut: usize) -> Result<ProbeOut, String> {
                 let tl_len = s.tl_len();
                 let cap = hint.1.unwrap_or(DRAIN_LIMIT).min(DRAIN_LIMIT).saturating_add(16);
                 let (float, de, res, plain) = (s.is_float(), s.is_de(), s.is_res(), s.is_plain());
-                let (drained, capped) = s.drain(cap);
+                let (drained, capped) = if from_back && de { s.drain_back(cap) } else { s.drain(cap) };
                 drop(s);
                 Ok(ProbeOut {
                     hint,
